@@ -67,6 +67,7 @@ def _abstract_seq():
 AbstractSeq = _abstract_seq()
 
 H_tuple = ops.opq("H_tuple", V.ValSeq, z3.IntSort())
+lib_map_hash = ops.opq("H_map", z3.ArraySort(V.Val, V.Val), z3.ArraySort(V.Val, z3.BoolSort()), z3.IntSort())  # the function pyvc/lib.py uses for hash(<immutables.Map>)
 H_pvector = ops.opq("H_pvector", V.ValSeq, z3.IntSort())
 
 
@@ -236,6 +237,24 @@ def build(active_known=frozenset()):
                            z3.Select(parts(a.pre.st, a.self)[0], kq), z3.Select(parts(a.pre.st, a.other)[0], kq))))
         c.raises()
         c.ensures(what, lambda a, with_values=with_values: z3.And(V.is_bool(a.result), V.Val.b(a.result) == z3.Or(a.self == a.other, entries_equal(a, with_values))))
+        c.replay(lambda m, ctx, ob: MAPSET_REPLAY.replace("KNOWN_BOOL_FINDING", repr("C05-bool-vs-number-elements" in active_known)))
+        c.replay_without_model = True
+
+    # ---- and their hashes: a function of the entries / members alone (never of the metadata), the same for every map / set object
+    H_set = ops.opq("H_set", z3.ArraySort(V.Val, z3.BoolSort()), z3.IntSort())
+
+    def hash_setup(eng, st):
+        map_setup(eng, st)
+        eng.method_models[(PersistentSet, "_hash")] = Model("collections.abc.Set._hash (trusted: a function of the members)",
+                                                   lambda e, s, a, k: iter([(s, SV(V.mk_int(H_set(parts(s, a[0].t)[1]))))]))
+
+    for C, spec in ((PersistentMap, lambda a: lib_map_hash(parts(a.pre.st, a.self)[0], parts(a.pre.st, a.self)[1])), (PersistentSet, lambda a: H_set(parts(a.pre.st, a.self)[1]))):
+        c = pack.contract(f"{C.__module__}:{C.__name__}.__hash__")
+        c.param("self", OBJ(C))
+        c.setup(hash_setup)
+        c.raises()
+        c.ensures("the hash is the library's hash of the entries (members) and nothing else - in particular not of the metadata - so that maps (sets) with the same entries "
+                  "hash alike whatever object they are", lambda a, spec=spec: z3.And(V.is_int(a.result), V.Val.i(a.result) == spec(a)))
         c.replay(lambda m, ctx, ob: MAPSET_REPLAY.replace("KNOWN_BOOL_FINDING", repr("C05-bool-vs-number-elements" in active_known)))
         c.replay_without_model = True
 
